@@ -71,6 +71,25 @@ theorem deadZero_map (g : V → V) (hg : g 0 = 0) : ∀ (m : List Bool) (xs : Li
       obtain ⟨h0, h1⟩ := h
       exact ⟨fun ha => by rw [h0 ha, hg], ih xs h1⟩
 
+/-- a per-channel map that preserves zero on the dead channels keeps them zero -/
+theorem deadZero_zipWithIdx (f : ℕ → V → V) : ∀ (m : List Bool) (xs : List V) (k : ℕ),
+    m.length = xs.length → DeadZero m xs → (∀ c, m.getD c true = false → f (k + c) 0 = 0) →
+    DeadZero m (List.zipWith f (idxFrom k xs.length) xs) := by
+  intro m; induction m with
+  | nil => intro xs k _ _ _; cases xs <;> simp [DeadZero, idxFrom]
+  | cons a as ih =>
+    intro xs k hl hd hf
+    cases xs with
+    | nil => simp at hl
+    | cons x xs =>
+      obtain ⟨h0, h1⟩ := hd
+      simp only [List.length_cons, Nat.add_right_cancel_iff] at hl
+      simp only [List.length_cons, idxFrom, List.zipWith_cons_cons, DeadZero]
+      refine ⟨fun ha => ?_, ih xs (k + 1) hl h1 (fun c hc => ?_)⟩
+      · rw [h0 ha]; simpa using hf 0 (by simpa using ha)
+      · have := hf (c + 1) (by simpa using hc)
+        rwa [show k + (c + 1) = k + 1 + c by omega] at this
+
 theorem compress_zipWith {α β γ : Type} (f : α → β → γ) : ∀ (m : List Bool) (xs : List α) (ys : List β),
     compress m (List.zipWith f xs ys) = List.zipWith f (compress m xs) (compress m ys) := by
   intro m; induction m with
